@@ -4,6 +4,8 @@ import sys, os, shutil, subprocess, tempfile
 patch, pid = sys.argv[1:3]
 tier = sys.argv[3] if len(sys.argv) > 3 else "quick"
 d = tempfile.mkdtemp(prefix="rtosc-seed-")
+evp = "/verif/evidence/%s.json" % pid
+evsave = open(evp).read() if os.path.exists(evp) else None
 try:
     for sub in ("src", "include", "CMakeLists.txt"):
         s = os.path.join("/repo", sub)
@@ -19,4 +21,5 @@ try:
     print("%s %s: %s" % (os.path.dirname(patch), pid, "DETECTED" if r.returncode == 1 and any(l.startswith("VIOLATION") for l in out) else ("MISSED rc=%d" % r.returncode)))
 finally:
     shutil.rmtree(d, ignore_errors=True)
-    subprocess.run("cd /verif && git checkout -- evidence 2>/dev/null", shell=True)
+    if evsave is not None: open(evp, "w").write(evsave)
+    elif os.path.exists(evp): os.remove(evp)
